@@ -2,25 +2,174 @@
 
 package dig
 
-// Entry points: one per property and tier.  A property = a profile (bounds)
-// plus the set of clause prefixes it owns.
-
-var verifTier = "quick"
+// Entry points: one per property, tier and scenario.  A property = profiles
+// (bounds) plus the set of clause prefixes it owns.
 
 func verifRunProfile(p *vProfile) {
 	h := &vHist{p: p}
 	h.run()
 }
 
-func verifC01() {
-	verifRunProfile(&vProfile{
-		name: "C01", clauses: []string{"C01."},
+// ---- C01: injected values are exactly the registered constructors' outputs
+
+var vC01 = []string{"C01."}
+
+// param objects, optional fields, 2 scopes
+func verifC01a() {
+	verifRunProfile(&vProfile{name: "C01a", clauses: vC01,
 		maxScopes: 2, nRegs: 2, maxParams: 1, maxResults: 1,
-		pForms: 2, rForms: 1, names: 2, optional: true, export: true,
-		faults: 1, nInvokes: 1, invParams: 2, distinct: true,
-	})
+		pForms: 2, rForms: 1, names: 1, optional: true,
+		faults: 1, nInvokes: 1, invParams: 1, distinct: true})
+}
+
+// positional only, 3 constructors, Export, 2 scopes, 2 Invokes
+func verifC01b() {
+	verifRunProfile(&vProfile{name: "C01b", clauses: vC01,
+		maxScopes: 2, nRegs: 2, maxParams: 1, maxResults: 1,
+		pForms: 1, rForms: 1, names: 1, export: true,
+		faults: 1, nInvokes: 2, invParams: 1, distinct: true, noMissing: true})
+}
+
+// names, result objects, two results
+func verifC01c() {
+	verifRunProfile(&vProfile{name: "C01c", clauses: vC01,
+		maxScopes: 1, nRegs: 1, maxParams: 0, maxResults: 2,
+		pForms: 2, rForms: 2, names: 2,
+		faults: 1, nInvokes: 1, invParams: 2, distinct: true, noMissing: true})
+}
+
+// one decorator among the registrations
+func verifC01d() {
+	verifRunProfile(&vProfile{name: "C01d", clauses: vC01,
+		maxScopes: 2, nRegs: 3, maxParams: 1, maxResults: 1,
+		pForms: 1, rForms: 1, names: 1, decorators: 1,
+		faults: 1, nInvokes: 1, invParams: 1, distinct: true, noMissing: true})
 }
 
 func init() {
-	verifEntries["verifC01"] = verifC01
+	verifEntries["verifC01a"] = verifC01a
+	verifEntries["verifC01b"] = verifC01b
+	verifEntries["verifC01c"] = verifC01c
+	verifEntries["verifC01d"] = verifC01d
+}
+
+// ---- C02: singletons
+var vC02 = []string{"C02."}
+
+func verifC02a() { // repeated demands from several scopes, Export
+	verifRunProfile(&vProfile{name: "C02a", clauses: vC02,
+		maxScopes: 2, nRegs: 2, maxParams: 1, maxResults: 1, pForms: 1, rForms: 1, names: 1, export: true,
+		faults: 1, nInvokes: 3, invParams: 1, distinct: true, noMissing: true, lateScopes: true})
+}
+
+func verifC02b() { // decorator input and group membership as demand paths
+	verifRunProfile(&vProfile{name: "C02b", clauses: vC02,
+		maxScopes: 1, nRegs: 3, maxParams: 1, maxResults: 1, pForms: 1, rForms: 1, names: 1, decorators: 1,
+		faults: 1, nInvokes: 2, invParams: 1, distinct: true, noMissing: true})
+}
+
+func verifC02c() { // groups
+	verifRunProfile(&vProfile{name: "C02c", clauses: vC02,
+		maxScopes: 2, nRegs: 2, maxParams: 1, maxResults: 1, pForms: 2, rForms: 1, names: 1, groups: true,
+		faults: 1, nInvokes: 2, invParams: 1, distinct: true, noMissing: true})
+}
+
+// ---- C03: laziness
+var vC03 = []string{"C03."}
+
+func verifC03a() {
+	verifRunProfile(&vProfile{name: "C03a", clauses: vC03,
+		maxScopes: 2, nRegs: 3, maxParams: 1, maxResults: 1, pForms: 1, rForms: 1, names: 1,
+		faults: 1, nInvokes: 1, invParams: 1, distinct: true, quietCalls: true})
+}
+
+func verifC03b() { // optional edges, groups, soft groups
+	verifRunProfile(&vProfile{name: "C03b", clauses: vC03,
+		maxScopes: 1, nRegs: 2, maxParams: 1, maxResults: 1, pForms: 2, rForms: 1, names: 1, optional: true, groups: true, soft: true,
+		faults: 1, nInvokes: 2, invParams: 1, distinct: true})
+}
+
+// ---- C04: missing dependencies
+var vC04 = []string{"C04."}
+
+func verifC04a() {
+	verifRunProfile(&vProfile{name: "C04a", clauses: vC04,
+		maxScopes: 2, nRegs: 2, maxParams: 1, maxResults: 1, pForms: 2, rForms: 1, names: 1, optional: true,
+		faults: 1, nInvokes: 1, invParams: 1, distinct: true})
+}
+
+func verifC04b() { // depth 3 chain in one scope, then a second Invoke
+	verifRunProfile(&vProfile{name: "C04b", clauses: vC04,
+		maxScopes: 1, nRegs: 3, maxParams: 1, maxResults: 1, pForms: 2, rForms: 1, names: 1, optional: true,
+		faults: 1, nInvokes: 1, invParams: 1, distinct: true})
+}
+
+// ---- C07: failed executions
+var vC07 = []string{"C07."}
+
+func verifC07a() {
+	verifRunProfile(&vProfile{name: "C07a", clauses: vC07,
+		maxScopes: 1, nRegs: 2, maxParams: 1, maxResults: 1, pForms: 1, rForms: 1, names: 1,
+		faults: 3, recoverOpt: 2, nInvokes: 2, invParams: 1, distinct: true, noMissing: true})
+}
+
+func verifC07b() { // a decorator that may fail
+	verifRunProfile(&vProfile{name: "C07b", clauses: vC07,
+		maxScopes: 1, nRegs: 2, maxParams: 1, maxResults: 1, pForms: 1, rForms: 1, names: 1, decorators: 1,
+		faults: 2, recoverOpt: 0, nInvokes: 2, invParams: 1, distinct: true, noMissing: true})
+}
+
+// ---- C08: scope visibility
+var vC08 = []string{"C08.", "C01.arg", "C01.zero"}
+
+func verifC08a() {
+	verifRunProfile(&vProfile{name: "C08a", clauses: vC08,
+		maxScopes: 3, nRegs: 2, maxParams: 1, maxResults: 1, pForms: 1, rForms: 1, names: 1, export: true,
+		faults: 1, nInvokes: 2, invParams: 1, lateScopes: true})
+}
+
+// ---- C10 / C11: value groups
+var vC10 = []string{"C10."}
+
+func verifC10a() {
+	verifRunProfile(&vProfile{name: "C10a", clauses: vC10,
+		maxScopes: 2, nRegs: 2, maxParams: 0, maxResults: 1, pForms: 2, rForms: 2, names: 1, groups: true, flatten: true, export: true,
+		faults: 1, nInvokes: 2, invParams: 1, lateRegs: 1})
+}
+
+var vC11 = []string{"C11."}
+
+func verifC11a() {
+	verifRunProfile(&vProfile{name: "C11a", clauses: vC11,
+		maxScopes: 1, nRegs: 2, maxParams: 0, maxResults: 2, pForms: 2, rForms: 2, names: 1, groups: true, soft: true,
+		faults: 1, nInvokes: 2, invParams: 2})
+}
+
+// ---- C12: decoration
+var vC12 = []string{"C12."}
+
+func verifC12a() {
+	verifRunProfile(&vProfile{name: "C12a", clauses: vC12,
+		maxScopes: 2, nRegs: 3, maxParams: 1, maxResults: 1, pForms: 1, rForms: 1, names: 1, decorators: 2,
+		faults: 1, nInvokes: 2, invParams: 1, distinct: true, noMissing: true})
+}
+
+// ---- C13: errors
+var vC13 = []string{"C13."}
+
+func verifC13a() {
+	verifRunProfile(&vProfile{name: "C13a", clauses: vC13,
+		maxScopes: 2, nRegs: 2, maxParams: 1, maxResults: 1, pForms: 2, rForms: 1, names: 1,
+		faults: 3, recoverOpt: 2, nInvokes: 1, invParams: 1, distinct: true})
+}
+
+func init() {
+	for n, f := range map[string]func(){
+		"verifC02a": verifC02a, "verifC02b": verifC02b, "verifC02c": verifC02c,
+		"verifC03a": verifC03a, "verifC03b": verifC03b, "verifC04a": verifC04a, "verifC04b": verifC04b,
+		"verifC07a": verifC07a, "verifC07b": verifC07b, "verifC08a": verifC08a, "verifC10a": verifC10a,
+		"verifC11a": verifC11a, "verifC12a": verifC12a, "verifC13a": verifC13a,
+	} {
+		verifEntries[n] = f
+	}
 }
